@@ -74,6 +74,7 @@ ANALYSES = {
     "metabolite.summary": lambda m: {"n": len(m.metabolites[0].summary()._flux)},
     "reaction.summary": lambda m: {"n": len(m.reactions[1].summary()._flux)},
 }
+USES_FIXED_OBJECTIVE = ("pfba", "fva-pfba_factor", "model.summary", "metabolite.summary", "reaction.summary", "linear-moma", "room")
 QUICK = ["optimize", "optimize(objective_sense,raise_error)", "slim_optimize", "fva", "fva-fraction", "fva-pfba_factor", "find_blocked_reactions", "find_essential_genes",
          "pfba", "linear-moma", "single_reaction_deletion", "single_gene_deletion", "double_gene_deletion",
          "single_gene_deletion(linear moma)", "loopless_solution", "assess", "assess(existing-demand)", "minimal_medium",
@@ -148,8 +149,18 @@ def c13_analysis(E, names=QUICK, sym=(("EX_A",), ("DM_B",)), objectives=("DM_B:m
     pre = E.pick("gene_already_knocked_out", list(pre_ko))
     if pre != "none":
         m.genes.get_by_id(pre).knock_out()
+    left = False
+    if name in USES_FIXED_OBJECTIVE and objective.startswith("DM_B") and E.flag("fixed_objective_constraint_left_by_the_user"):
+        # the user fixed the current objective as a constraint earlier (outside any context, with some slack): analyses that use
+        # the same helper replace it for their own purposes and must put it back exactly
+        from cobra.util.solver import fix_objective_as_constraint
+        try:
+            fix_objective_as_constraint(m, fraction=(0.5 if objective.endswith("max") else 1.5))
+            left = True
+        except Exception:
+            return
     inctx = E.flag("inside_user_context")
-    E.note(analysis=name, objective=objective, pre_knocked=pre, inside_context=inctx, symbolic=list(which))
+    E.note(analysis=name, objective=objective, pre_knocked=pre, inside_context=inctx, symbolic=list(which), helper_left=left)
     fn = ANALYSES[name]
     if inctx:
         m.__enter__()
